@@ -2402,33 +2402,89 @@ def explicit_context_nodes(u):
     return inside
 
 
+def _resolve_decorator(A, u, d):
+    """FunctionDef (in the analysed packages) a decorator call `@name(...)` / `@mod.name(...)` / `@name` denotes, else None"""
+    f = d.func if isinstance(d, ast.Call) else d
+    res = None
+    if isinstance(f, ast.Name):
+        res = A.idx.resolve(u.mod, f.id)
+    elif isinstance(f, ast.Attribute) and isinstance(f.value, ast.Name):
+        r0 = A.idx.resolve(u.mod, f.value.id)
+        if r0 is not None and r0[0] == 'module' and r0[1] is not None:
+            res = A.idx.resolve(r0[1], f.attr)
+    if res is None or res[0] != 'func':
+        return None
+    return res[2]
+
+
+def _is_localcontext_call(c):
+    return isinstance(c, ast.Call) and ((isinstance(c.func, ast.Name) and c.func.id == 'localcontext')
+                                        or (isinstance(c.func, ast.Attribute) and c.func.attr == 'localcontext'))
+
+
+def decorator_definition_kind(fn):
+    """what a decorator *factory* defined in the analysed packages does with the function it decorates, read from its
+    definition on every run:
+      'context'  - some inner wrapper runs the call to the decorated function inside
+                   `with localcontext() as ctx: ctx.prec = <value taken from the factory's arguments>`
+      'identity' - the inner decorator hands the function back unchanged (no wrapper, no state)
+      None       - anything else"""
+    outer_params = {a.arg for a in fn.args.posonlyargs + fn.args.args + fn.args.kwonlyargs}
+    for x in (fn.args.vararg, fn.args.kwarg):
+        if x is not None:
+            outer_params.add(x.arg)
+    inner = [n for n in ast.walk(fn) if isinstance(n, (ast.FunctionDef, ast.Lambda)) and n is not fn]
+    fparams = set()
+    for n in inner:
+        for a in n.args.posonlyargs + n.args.args:
+            fparams.add(a.arg)
+    for w in ast.walk(fn):
+        if not isinstance(w, ast.With):
+            continue
+        for it in w.items:
+            if not (_is_localcontext_call(it.context_expr) and isinstance(it.optional_vars, ast.Name)):
+                continue
+            v = it.optional_vars.id
+            prec_at = None
+            for i, st in enumerate(w.body):
+                if isinstance(st, ast.Assign) and any(isinstance(t, ast.Attribute) and t.attr == 'prec'
+                                                      and isinstance(t.value, ast.Name) and t.value.id == v
+                                                      for t in st.targets) \
+                        and any(isinstance(x, ast.Name) and x.id in outer_params for x in ast.walk(st.value)):
+                    prec_at = i
+                    break
+                break       # the precision must be the first thing set in the block
+            if prec_at is None:
+                continue
+            for st in w.body[prec_at + 1:]:
+                for x in ast.walk(st):
+                    if isinstance(x, ast.Call) and isinstance(x.func, ast.Name) and x.func.id in fparams:
+                        return 'context'
+    # identity: def factory(..): def decorator(f): return f ; return decorator
+    for n in inner:
+        if isinstance(n, ast.FunctionDef) and len(n.args.args) == 1:
+            body = [st for st in n.body if not (isinstance(st, ast.Expr) and isinstance(st.value, ast.Constant))]
+            if len(body) == 1 and isinstance(body[0], ast.Return) and isinstance(body[0].value, ast.Name) \
+                    and body[0].value.id == n.args.args[0].arg \
+                    and any(isinstance(r, ast.Return) and isinstance(r.value, ast.Name) and r.value.id == n.name
+                            for r in fn.body):
+                return 'identity'
+    body = [st for st in fn.body if not (isinstance(st, ast.Expr) and isinstance(st.value, ast.Constant))]
+    if len(fn.args.args) == 1 and len(body) == 1 and isinstance(body[0], ast.Return) \
+            and isinstance(body[0].value, ast.Name) and body[0].value.id == fn.args.args[0].arg:
+        return 'identity'
+    return None
+
+
 def context_decorator(A, u):
-    """`@precision(prec=N)`-like decorator: resolves to a function that runs its argument under localcontext() with the
-    precision taken from the decorator call -> description, else None"""
+    """`@precision(prec=N)`: the decorator resolves to a definition in the analysed packages that - checked on every run -
+    runs the decorated call under `with localcontext() as ctx: ctx.prec = <prec argument>` -> description, else None
+    (a decorator of that name whose definition no longer does this gives NO context: what it decorates is uncovered)"""
     for d in u.node.decorator_list:
         if not isinstance(d, ast.Call):
             continue
-        f = d.func
-        res = None
-        if isinstance(f, ast.Name):
-            res = A.idx.resolve(u.mod, f.id)
-        elif isinstance(f, ast.Attribute) and isinstance(f.value, ast.Name):
-            r0 = A.idx.resolve(u.mod, f.value.id)
-            if r0 is not None and r0[0] == 'module' and r0[1] is not None:
-                res = A.idx.resolve(r0[1], f.attr)
-        if res is None or res[0] != 'func':
-            continue
-        fn = res[2]
-        sets_prec = False
-        for w in ast.walk(fn):
-            if isinstance(w, ast.With) and any(isinstance(it.context_expr, ast.Call) and (
-                    (isinstance(it.context_expr.func, ast.Name) and it.context_expr.func.id == 'localcontext')
-                    or (isinstance(it.context_expr.func, ast.Attribute) and it.context_expr.func.attr == 'localcontext'))
-                    for it in w.items):
-                if any(isinstance(st, ast.Assign) and any(isinstance(t, ast.Attribute) and t.attr == 'prec'
-                                                          for t in st.targets) for st in w.body):
-                    sets_prec = True
-        if not sets_prec:
+        fn = _resolve_decorator(A, u, d)
+        if fn is None or decorator_definition_kind(fn) != 'context':
             continue
         prec = [k.value for k in d.keywords if k.arg == 'prec']
         if prec and isinstance(prec[0], ast.Constant) and isinstance(prec[0].value, int) and prec[0].value > 0:
@@ -2605,11 +2661,19 @@ def rule_decimal(chk, A):
             outer = [(n, detail) for n, detail in uncovered if id(n) not in inner]
             forms = sorted({detail for n, detail in outer})
             lines = sorted({n.lineno for n, detail in outer})
+            dead = ''
+            for dd in u.node.decorator_list:
+                dfn = _resolve_decorator(A, u, dd)
+                if dfn is not None and decorator_definition_kind(dfn) != 'context':
+                    dead = ' (its decorator @%s no longer runs the call under `with localcontext() as ctx: ctx.prec = ..`: ' \
+                           'see the definition at line %d of its module)' % (dfn.name, dfn.lineno)
             chk.bad(R_DEC, u.path, u.qual, '; '.join(forms),
                     '%d Decimal operation(s) in %s (lines %s) run under whatever decimal context the calling thread has - no '
-                    '@precision / `with localcontext()` here, and %s: the digits of the result depend on the thread (the '
-                    'importing thread was configured at import, any other thread has the default precision 28)'
-                    % (len(outer), u.qual, ', '.join(map(str, lines)), why.get(id(u), 'a caller is uncovered')), lines[0])
+                    'working @precision / `with localcontext()` here%s, and %s: the digits of the result depend on the thread '
+                    '(a thread whose context was configured elsewhere computes with that precision, any other thread with the '
+                    'default 28 digits)'
+                    % (len(outer), u.qual, ', '.join(map(str, lines)), dead, why.get(id(u), 'a caller is uncovered')),
+                    lines[0])
     return n_sites
 
 
@@ -2695,39 +2759,65 @@ def rule_defaults(chk, A):
 # ---- class-level containers, one-shot iterators, decorators ----------------------------------------
 
 def rule_class_mutable(chk, A):
-    """hand-written classes with a class-level list / dict / set: never mutated through `self` in a constructor (outside
-    constructors every self-rooted mutation is already a C02.shared-write site) and not through the class name"""
-    mutated = {}        # (class qual, attr) -> [(unit, node, what)]
+    """a write through `self.<attr>` - in a constructor or in a build-time helper - fills the object under construction only
+    when <attr> is bound per instance; when <attr> is a class-level list / dict / set (assigned or annotated-assigned in a
+    class body of the MRO) that no constructor of the chain rebinds, every instance fills the same object.  The process-wide
+    model cache is written through the class name, not through self, and is governed by C02.cache-key."""
+    ctor_assigned = {}
+
+    def assigned_in_ctor_chain(c):
+        r = ctor_assigned.get(id(c))
+        if r is None:
+            r = set()
+            for k in A.idx.mro(c):
+                for nm in CTOR_NAMES:
+                    fn = k.methods.get(nm)
+                    cu = A.unit_of.get(id(fn)) if fn is not None else None
+                    if cu is None:
+                        continue
+                    for t, stmt, kind, value in cu.stores:
+                        if kind == 'store' and isinstance(t, ast.Attribute) and isinstance(t.value, ast.Name) \
+                                and t.value.id == cu.recv:
+                            r.add(t.attr)
+            ctor_assigned[id(c)] = r
+        return r
+
+    def class_level(c, x):
+        """(defining class, attr name, value) of a class-level mutable container behind self.x, else None"""
+        k, v = A.idx.class_attr(c, x)
+        if v is None and x.startswith('_'):
+            for q in A.idx.mro(c):
+                pre = '_' + q.name.lstrip('_')
+                if x.startswith(pre + '__') and x[len(pre):] in q.attrs:
+                    k, v, x = q, q.attrs[x[len(pre):]], x[len(pre):]
+                    break
+        if v is None or A.immutable_value(k.mod, k, v):
+            return None
+        return k, x, v
+
+    mutated = {}        # (class qual, attr) -> [(unit, node, what, classes whose instances share it)]
     for u in A.units:
-        if u.kind != 'ctor':
+        if u.cls is None or not u.recv or u.is_classmethod:
             continue
-        assigned = set()
-        for k in A.idx.mro(u.cls):
-            for nm in CTOR_NAMES:
-                fn = k.methods.get(nm)
-                cu = A.unit_of.get(id(fn)) if fn is not None else None
-                if cu is None:
-                    continue
-                for t, stmt, kind, value in cu.stores:
-                    if kind == 'store' and isinstance(t, ast.Attribute) and isinstance(t.value, ast.Name) \
-                            and t.value.id == cu.recv:
-                        assigned.add(t.attr)
         for kind, root, node, path, name, formal, expr in A.sites(u):
             if root != SELF:
                 continue
             x = mutated_attr(kind, path)
-            if x is None or x in assigned:
+            if x is None:
                 continue
-            k, v = A.idx.class_attr(u.cls, x)
-            if v is None and x.startswith('_'):
-                for q in A.idx.mro(u.cls):
-                    pre = '_' + q.name.lstrip('_')
-                    if x.startswith(pre + '__') and x[len(pre):] in q.attrs:
-                        k, v = q, q.attrs[x[len(pre):]]
-                        x = x[len(pre):]
-                        break
-            if v is not None and not A.immutable_value(k.mod, k, v):
-                mutated.setdefault((k.qual, x), []).append((u, node, '%s %s' % (kind, path)))
+            hit = class_level(u.cls, x)
+            if hit is None:
+                continue
+            k, attr, v = hit
+            fam = A.subclasses_incl(u.cls)
+            leaves = [c for c in fam if not any(d is not c and c in A.idx.mro(d) for d in fam)]
+            sharing = sorted(c.name for c in leaves if x not in assigned_in_ctor_chain(c))
+            if not sharing:
+                continue
+            what = '%s %s' % (kind, path) if kind != 'call' else 'passes %s to %s() which mutates its %s' % (path, name, formal)
+            if kind == 'mutator':
+                what = '%s.%s()' % (path, name)
+            mutated.setdefault((k.qual, attr), []).append((u, node, what, sharing))
     n = 0
     for c in A.idx.all_classes():
         if not A.in_scope(c.mod) or '.resources.' in c.mod.name:
@@ -2739,11 +2829,38 @@ def rule_class_mutable(chk, A):
                 continue
             n += 1
             hits = mutated.get((c.qual, a), [])
-            chk.judge(not hits, R_CLS, c.mod.path, '%s.%s' % (c.name, a), 'class-level %s' % type(v).__name__,
-                      'the class-level container %s.%s is shared by all instances and %s mutates it through self (%s): what a '
-                      'model contains depends on how many were built before'
-                      % (c.name, a, hits[0][0].qual if hits else '', hits[0][2] if hits else ''),
-                      hits[0][1].lineno if hits else c.node.lineno)
+            if not hits:
+                chk.ok(R_CLS, c.mod.path, '%s.%s' % (c.name, a), 'class-level %s: never written through self'
+                       % type(v).__name__, c.node.lineno)
+                continue
+            hu, node, what, sharing = hits[0]
+            chk.bad(R_CLS, c.mod.path, '%s.%s' % (c.name, a),
+                    'class-level %s written through self by %s' % (type(v).__name__, sorted({h[0].qual for h in hits})),
+                    'the class-level container %s.%s is ONE object shared by every instance (no constructor of %s rebinds '
+                    'self.%s), and %s (%s:%d) writes into it through self: %s - what one model contains depends on which '
+                    'models were built before it'
+                    % (c.name, a, ', '.join(sharing[:4]) + (' ...' if len(sharing) > 4 else ''), a, hu.qual, hu.mod.rel,
+                       getattr(node, 'lineno', 0), what), getattr(node, 'lineno', c.node.lineno))
+    # class-level tables bound by reference (`x: Dict = Resource.Table`): shared by construction, flagged when written
+    for (kq, attr), hits in sorted(mutated.items()):
+        k = None
+        for c in A.idx.all_classes():
+            if c.qual == kq:
+                k = c
+                break
+        if k is None or attr not in k.attrs:
+            continue
+        v = k.attrs[attr]
+        if is_mutable_default(v) or (isinstance(v, ast.Call) and isinstance(v.func, ast.Name) and v.func.id in CONTAINER_CTORS):
+            continue        # reported above
+        if not A.in_scope(k.mod) or '.resources.' in k.mod.name:
+            continue
+        hu, node, what, sharing = hits[0]
+        n += 1
+        chk.bad(R_CLS, k.mod.path, '%s.%s' % (k.name, attr), 'class-level reference written through self by %s'
+                % sorted({h[0].qual for h in hits}),
+                'the class-level attribute %s.%s refers to one shared object and %s (%s:%d) writes into it through self: %s'
+                % (k.name, attr, hu.qual, hu.mod.rel, getattr(node, 'lineno', 0), what), getattr(node, 'lineno', 0))
     return n
 
 
@@ -2807,6 +2924,10 @@ def rule_decorators(chk, A):
                            '(any mutation of it is a C02.shared-write site)', 'memo', raw.lineno)
         elif u is not None and context_decorator(A, u):
             chk.ok(R_DECO, path, '@' + key, 'runs the function under an explicit decimal context', raw.lineno)
+        elif u is not None and _resolve_decorator(A, u, raw) is not None \
+                and decorator_definition_kind(_resolve_decorator(A, u, raw)) == 'identity':
+            chk.ok(R_DECO, path, '@' + key, 'defined in the analysed packages: hands the function back unchanged (no wrapper, '
+                   'no state, no decimal context - see %s)' % R_DEC, raw.lineno)
         else:
             raise AnalysisError('%s:%d unknown decorator @%s on %s: it may keep state between calls - add it to the reviewed '
                                 'list in sa/props/c02.py after reading it' % (u.mod.rel if u else '?', raw.lineno, key, where))
@@ -3102,8 +3223,8 @@ def run(chk):
              'way, write follows a miss', floor=3, control=True)
     chk.rule(R_AMB, 'clock / random / environment reads only as `if reference is None: reference = datetime.now()`',
              floor=30, control=True)
-    chk.rule(R_DEC, 'every Decimal operation runs under an explicit context (@precision / with localcontext / all callers)',
-             floor=10, control=True)
+    chk.rule(R_DEC, 'every Decimal operation runs under an explicit context (@precision, its definition verified on every '
+             'run / with localcontext / all callers)', floor=5, control=True)
     chk.rule(R_DECIMP, 'no thread-local decimal configuration at import', floor=0, control=True)
     chk.rule(R_DEF, 'mutable default arguments are never mutated (directly or through the attribute they are stored in)',
              floor=3, control=True)
@@ -3128,124 +3249,3 @@ def run(chk):
     chk.assume('the timex_str of duration / time parse results does not depend on the reference date (BaseSetParser passes '
                'datetime.now() to those two parsers and reads only .timex_str)')
     chk.assume('an object obtained from a call outside the analysed packages (regex, datetime, queue) is not shared state')
-
-
-# =====================================================================================================
-# thorough tier: armed variants and behaviour-preserving twins, applied in memory to the real sources
-# =====================================================================================================
-
-NUM = 'recognizers_number.number.'
-VARIANTS = [
-    # (label, expected rule | None for a twin, module, old text, new text)
-    ('memo dict written in BaseNumberParser.parse', R_WRITE, NUM + 'parsers',
-     '        ret: Optional[ParseResult] = None\n',
-     '        self.supported_types.append(source.type)\n        ret: Optional[ParseResult] = None\n'),
-    ('twin: the same append on a local copy', None, NUM + 'parsers',
-     '        ret: Optional[ParseResult] = None\n',
-     '        types_seen = list(self.supported_types)\n        types_seen.append(source.type)\n'
-     '        ret: Optional[ParseResult] = None\n'),
-    ('culture dropped from the cache key', R_CACHE, 'recognizers_text.model',
-     'culture=culture, options=options)\n        ModelFactory.__cache[key] = model',
-     'culture=None, options=options)\n        ModelFactory.__cache[key] = model'),
-    ('reference = datetime.now() made unconditional', R_AMB, 'recognizers_date_time.date_time.base_time',
-     '        if reference is None:\n            reference = datetime.now()\n', '        reference = datetime.now()\n'),
-    ('twin: defaulting written as a conditional expression', None, 'recognizers_date_time.date_time.base_time',
-     '        if reference is None:\n            reference = datetime.now()\n',
-     '        reference = datetime.now() if reference is None else reference\n'),
-    ('Decimal multiplication moved out of the decorated helper', R_DEC, NUM + 'parsers',
-     '        result.value = self._get_digital_value(handle, power)\n',
-     '        result.value = self._get_digital_value(handle, 1) * Decimal(power)\n'),
-    ('module-level counter incremented in AbstractNumberModel.parse', R_WRITE, NUM + 'models',
-     '        query = QueryProcessor.preprocess(query, True)\n        results = []\n',
-     '        global CALLS\n        CALLS = globals_calls = 1\n        query = QueryProcessor.preprocess(query, True)\n'
-     '        results = []\n'),
-    ('trie insert reachable from StringMatcher.find', R_WRITE, 'recognizers_text.matcher.string_matcher',
-     '        if isinstance(tokenized_query, list):\n            return self.matcher.find(tokenized_query)\n',
-     '        if isinstance(tokenized_query, list):\n            self.matcher.insert(tokenized_query, \'q\')\n'
-     '            return self.matcher.find(tokenized_query)\n'),
-    ('twin: locals renamed in TrieTree.insert', None, 'recognizers_text.matcher.trie_tree',
-     '        node = self.root\n        for item in value:\n            child = node[item]\n\n            if child is None:\n'
-     '                node[item] = Node()\n                child = node[item]\n\n            node = child\n\n'
-     '        node.add_value(id)',
-     '        cur = self.root\n        for item in value:\n            nxt = cur[item]\n\n            if nxt is None:\n'
-     '                cur[item] = Node()\n                nxt = cur[item]\n\n            cur = nxt\n\n'
-     '        cur.add_value(id)'),
-    ('mutable default appended through its attribute', R_DEF, 'recognizers_choice.choice.extractors',
-     '            top_result.other_matches = partial_results\n',
-     '            top_result.other_matches.extend(partial_results)\n'),
-    ('shared template ExtractResult handed to a mutating parser', R_PARAM,
-     'recognizers_number_with_unit.number_with_unit.parsers',
-     '        ret = ParseResult(source)\n',
-     '        self.config.internal_number_parser.parse(self.config)\n        ret = ParseResult(source)\n'),
-]
-
-
-def variant_index(idx, modname, old, new):
-    m0 = idx.mods.get(modname)
-    if m0 is None:
-        return None
-    src = m0.src.replace('\r\n', '\n')
-    if old not in src:
-        return None
-    src = src.replace(old, new, 1)
-    try:
-        tree = ast.parse(src)
-    except SyntaxError:
-        return None
-    ix = Index.__new__(Index)
-    ix.mods, ix.by_path, ix.classes_by_name, ix.errors = {}, {}, {}, []
-    for name, m in idx.mods.items():
-        mm = Mod(name, m.path, tree if name == modname else m.tree, src if name == modname else m.src)
-        ix.mods[name] = mm
-    for mm in ix.mods.values():
-        ix._scan(mm)
-    return ix
-
-
-def thorough(chk):
-    """in-memory variant self-test (same summary shape as sa/variants.py, which replaces it when sa/variants/c02.json
-    exists); new violations are judged relative to the violations of the unedited tree"""
-    idx = get_index()
-    scope = recogniser_scope(idx)
-    base = {(i.rule, i.construct) for i in chk.insts if i.verdict == 'violation'}
-    results, problems, stale = [], [], []
-    n_break = n_benign = ok_break = ok_benign = closed = 0
-    for label, rule, modname, old, new in VARIANTS:
-        if rule is None:
-            n_benign += 1
-        else:
-            n_break += 1
-        ix = variant_index(idx, modname, old, new)
-        if ix is None:
-            stale.append(label)
-            results.append('%s: stale - anchor text changed' % label)
-            continue
-        sink = _Sink()
-        try:
-            run_rules(sink, analyse(ix, scope))
-        except AnalysisError as e:
-            if rule is None:
-                problems.append('%s: false-alarm (analysis error on a behaviour-preserving twin: %s)' % (label, str(e)[:200]))
-            else:
-                closed += 1
-                results.append('%s: closed - %s' % (label, str(e)[:160]))
-            continue
-        fired = {(r, c) for r, v in sink.fired.items() for c, d in v} - base
-        if rule is None:
-            if fired:
-                problems.append('%s: false-alarm (%s)' % (label, sorted(fired)[:3]))
-            else:
-                ok_benign += 1
-                results.append('%s: ok - silent' % label)
-        else:
-            hit = sorted(c for r, c in fired if r == rule)
-            if not hit:
-                problems.append('%s: missed (expected %s, new violations: %s)' % (label, rule, sorted(fired)[:3]))
-            else:
-                ok_break += 1
-                results.append('%s: ok - reported by %s at %s' % (label, rule, hit[0]))
-    if len(stale) * 2 > len(VARIANTS):
-        problems.append('more than half of the in-memory variants are stale: refresh VARIANTS in sa/props/c02.py')
-    chk.selftest = {'variants': len(VARIANTS), 'breaking': n_break, 'benign': n_benign, 'breaking_reported': ok_break,
-                    'breaking_failed_closed': closed, 'benign_silent': ok_benign, 'stale': stale, 'problems': problems,
-                    'results': results + problems}
